@@ -97,10 +97,11 @@ pub fn oneshot_perf(
     passed: Option<u32>,
     state: ScoreState,
 ) -> Result<String, String> {
-    let p = Performance::new(map)
+    // settings first: `try_mode` converts the map with the mods known at that moment
+    let mut p = Performance::new(map)
+        .difficulty(d)
         .try_mode(MODES[target])
         .map_err(|_| "convert error".to_owned())?;
-    let mut p = p.difficulty(d);
     if let Some(n) = passed {
         p = p.passed_objects(n);
     }
